@@ -491,6 +491,7 @@ def gen_fs_case(rng, idx, quick, wlen):
     sops.append(["newfs", H(root), "1" if per else "0"])
     meta["per_request"] = per
     nnames = 50 if quick else 70
+    residual = []
     for kind, key in (("static", "static"), ("template", "templates")):
         base = cfg[key]
         names = gen_names(t, base if base is not None else (b"app", key.encode()), rng, nnames if kind == "static" else nnames // 3)
@@ -511,9 +512,76 @@ def gen_fs_case(rng, idx, quick, wlen):
                     sops.append(["reload"])
                 sops.append(["swap" + kind, H(nm), H(rng.choice(swap_targets))])
                 sops.append([kind, H(nm)])
+            if base is not None and rng.chance(1, 5 if pristine else 40):
+                gen_sched(t, base, rng, kind, nm, pristine, sops, residual)
             if rng.chance(1, 40):
                 sops.append(["reload"])
-    return {"sops": sops, "tree_obj": t, "cfg": cfg, **meta}
+    return {"sops": sops, "tree_obj": t, "cfg": cfg, "residual": residual, **meta}
+
+
+SCHED_N = [0]
+
+
+def gen_sched(t, base, rng, kind, nm, pristine, sops, residual):
+    """One lookup with a change of the file system just before one of its system calls (points C R O G Z):
+    (i) the LEAF of the request (or its .gz sibling) is replaced by a link / another file / removed — the property's quantifier;
+    (ii) the leaf of a request that does not exist yet is created (as a link or as a file) while the lookup runs;
+    (iii) RESIDUAL, outside the quantifier and tagged as such: a new INTERMEDIATE symbolic link appears (the code's documented
+         limitation, witnessed in Lean by A4_residual_intermediate_link) — lockstep only, the content monitor is told."""
+    SCHED_N[0] += 1
+    n = SCHED_N[0]
+    secret = [abs_of((b"outside", b"secret.txt")), b"../" * 7 + b"outside/secret.txt", abs_of((b"outside", b"a.txt.gz"))]
+    pts = "CROGZ" if kind == "static" else "CRO"
+    pt = rng.choice(pts)
+    k = rng.below(10)
+    comps = [c for c in nm.split(b"/") if c]
+    ok_name = pristine and comps and all(len(c) <= 250 for c in comps)
+    if k < 6 and ok_name:
+        leaf = base + tuple(comps)
+        which = rng.below(6)
+        if which == 0:
+            mut = ["f", H(abs_of(leaf)), H(t.fresh(leaf, b"SCH"))]
+        elif which == 1:
+            mut = ["r", H(abs_of(leaf))]
+        elif which == 2 and kind == "static":
+            mut = ["l", H(abs_of(leaf) + b".gz"), H(rng.choice(secret))]
+        elif which == 3:
+            mut = ["l", H(abs_of(leaf)), H(rng.choice([abs_of((b"outside",)), b"a.txt", b"nonexistent", b"."]))]
+        else:
+            mut = ["l", H(abs_of(leaf)), H(rng.choice(secret))]
+        if leaf in t.ent and t.ent[leaf][0] == "d" and mut[0] != "l":
+            mut = ["l", H(abs_of(leaf)), H(rng.choice(secret))]
+        name = nm
+    elif k < 8:
+        dirs = [d for d in t.dirs() if d[:len(base)] == base]
+        d = rng.choice(dirs) if dirs else base
+        leafname = b"new%d.txt" % n
+        leaf = d + (leafname,)
+        name = b"/".join(leaf[len(base):])
+        if rng.chance(1, 2):
+            mut = ["l", H(abs_of(leaf)), H(rng.choice(secret + [b"a.txt"]))]
+        else:
+            mut = ["f", H(abs_of(leaf)), H(t.fresh(leaf, b"SCHNEW"))]
+        pt = rng.choice("RO" if kind == "template" else "ROG")
+    else:
+        nd = b"nd%d" % n
+        name = nd + rng.choice([b"/secret.txt", b"/dir/secret2.txt", b"/a.txt"])
+        mut = ["l", H(abs_of(base + (nd,))), H(rng.choice([abs_of((b"outside",)), b"../" * 7 + b"outside"]))]
+        pt = rng.choice("RO")
+        residual.append(len(sops) + 1)
+    # keep the generator's picture of the tree roughly in step (it only steers later picks)
+    mp = tuple(comps_of(mut[1][1].replace(W_TOKEN, b"")))
+    for q in [q for q in t.ent if len(q) > len(mp) and q[:len(mp)] == mp]:
+        del t.ent[q]
+    if mut[0] == "r":
+        t.ent.pop(mp, None)
+    elif mp[:-1] in t.ent and t.ent[mp[:-1]][0] == "d":
+        t.ent[mp] = ("l", mut[2][1]) if mut[0] == "l" else ("f", mut[2][1])
+    sops.append(["reload"])
+    sops.append(["sched", kind, H(name), pt] + mut)
+    sops.append([kind, H(name)])
+    if len(sops) - 3 + 1 in residual:
+        sops.append(["reload"])
 
 
 def gen_mutation(t, cfg, rng, kind, nm):
@@ -671,25 +739,38 @@ def monitor_case(c, ops, impl, W):
             roots = {"static": None, "template": None}
             f = main.split()
             if f[0] == "ok":
-                # the configured roots as the implementation canonicalised them, cross-checked with the OS where the OS can answer
-                roots["static"] = comps_of(unhex(f[1]))
-                roots["template"] = comps_of(unhex(f[2]))
+                # the roots are computed INDEPENDENTLY of the implementation: the OS's realpath of <root argument>/static (and
+                # /templates) where it exists, else realpath(<root argument>) + the sub-directory name; what the implementation
+                # canonicalised must be exactly that, and content is judged against the independent root
                 rp = orc.get("rp")
-                if rp and rp != "~":
-                    rpc = comps_of(unhex(rp))
-                    for k in ("static", "template"):
-                        if not roots[k]:
-                            bad.append((idx, "C20: empty %s root" % k))
+                for k, sub, key in (("static", b"static", "srp"), ("template", b"templates", "trp")):
+                    mine = comps_of(unhex(f[1 if k == "static" else 2]))
+                    ind = None
+                    if orc.get(key, "~") != "~":
+                        ind = comps_of(unhex(orc[key]))
+                    elif rp and rp != "~":
+                        ind = comps_of(unhex(rp)) + [sub]
+                    if ind is None:
+                        bad.append((idx, "C20: fromDirectory succeeded for a root the OS cannot resolve"))
+                        ind = mine
+                    elif ind != mine:
+                        bad.append((idx, "C20: configured %s root %r is not the canonical path %r of <root>/%s" %
+                                    (k, b"/" + b"/".join(mine), b"/" + b"/".join(ind), sub.decode())))
+                    roots[k] = ind
         if op == "newemb":
             ext = sop[1][1].replace(W_TOKEN, W)
-            roots = {"static": "ext", "template": None, "extdir": ext}
+            erp = orc.get("erp", "~")
+            roots = {"static": (comps_of(unhex(erp)) if erp != "~" else "none"), "template": None, "extdir": ext}
             emb_ok = set()
             for rec in sop[2][1]:
                 emb_ok.update(x for x in rec[1:] if x is not None)
             for rec in sop[3][1]:
                 emb_ok.add(rec[1])
-        if op in ("static", "template", "swapstatic", "swaptemplate"):
-            kind = "static" if "static" in op else "template"
+        if op == "sched" and sop[4] == "f":
+            contents.setdefault(sop[6][1], []).append(tuple(comps_of(sop[5][1].replace(W_TOKEN, b""))))
+        if op in ("static", "template", "swapstatic", "swaptemplate", "sched"):
+            kind = ("static" if "static" in op else "template") if op != "sched" else sop[1]
+            nm_tok = sop[1] if op != "sched" else sop[2]
             f = main.split()
             got = []
             if f and f[0] == "found":
@@ -698,28 +779,33 @@ def monitor_case(c, ops, impl, W):
                     bad.append((idx, "C20: gzipVariantExists disagrees with gzipBytes"))
             elif f and f[0] == "some":
                 got = [unhex(f[1])]
+            if idx in c.get("residual", []):
+                # outside the property's quantifier (a NEW intermediate link appeared mid-lookup): reported as an observation
+                if any(g not in emb_ok and g in contents and not any(roots.get(kind) not in (None, "none") and under(roots[kind], comps_of(W) + list(w))
+                                                                      for w in contents[g]) for g in got):
+                    c["_residual_leaks"] = c.get("_residual_leaks", 0) + 1
+                got = []
             for g in got:
                 if g in emb_ok:
                     continue
                 wheres = contents.get(g)
                 if wheres is None:
-                    bad.append((idx, "C20: %s %r returned bytes that are no file's content: %r" % (op, sop[1][1][:60], g[:60])))
+                    bad.append((idx, "C20: %s %r returned bytes that are no file's content: %r" % (op, nm_tok[1][:60], g[:60])))
                     continue
                 r = roots.get(kind)
-                if r == "ext":
-                    # physical external root: the generator only creates `ext`
-                    r = comps_of(W) + [b"ext"]
+                if r == "none":
+                    r = None          # EXTERNAL_DIR does not resolve: nothing may be served from it
                 if r is None or not any(under(r, comps_of(W) + list(w)) and comps_of(W) + list(w) != r for w in wheres):
                     bad.append((idx, "C20: %s %r returned the content of %r which is OUTSIDE the %s root %r" %
-                               (op, sop[1][1][:80], [b"/".join(w) for w in wheres][:3], kind, b"/" + b"/".join(r) if r else None)))
+                               (op, nm_tok[1][:80], [b"/".join(w) for w in wheres][:3], kind, b"/" + b"/".join(r) if r else None)))
             if got and op in ("static", "template") and "rp" in orc:
                 r = roots.get(kind)
-                if r == "ext":
-                    r = comps_of(W) + [b"ext"]
+                if r == "none":
+                    r = None
                 if orc["rp"] == "~":
-                    bad.append((idx, "C20: %s %r served but the OS cannot resolve <root>/<name>" % (op, sop[1][1][:80])))
+                    bad.append((idx, "C20: %s %r served but the OS cannot resolve <root>/<name>" % (op, nm_tok[1][:80])))
                 elif r is not None and not under(r, comps_of(unhex(orc["rp"]))):
-                    bad.append((idx, "C20: %s %r served but realpath(<root>/<name>) = %r is outside the root" % (op, sop[1][1][:80], unhex(orc["rp"])[-80:])))
+                    bad.append((idx, "C20: %s %r served but realpath(<root>/<name>) = %r is outside the root" % (op, nm_tok[1][:80], unhex(orc["rp"])[-80:])))
         if op == "storm" and not main.startswith("storm ok"):
             bad.append((idx, "C20: swap storm: %s" % main[:120]))
         if op == "cont" and main in ("0", "1"):
@@ -750,17 +836,23 @@ OBLIGATIONS = [
     {"id": "C20_A4_open", "theorem": "Iora.C20.A4_open_nofollow", "kind": "proved",
      "statement": "readFile (open O_NOFOLLOW, flags from Gen) on the canonical name of a location with a real parent directory returns only that location's own regular-file bytes"},
     {"id": "C20_A3_static", "theorem": "Iora.C20.A3_static", "kind": "proved",
-     "statement": "every Fs, every name: bytes (and gzip bytes) returned by getStatic (filesystem mode) are the content of a regular file strictly inside the static root"},
+     "statement": "every Fs, every name (file system at rest): the bytes returned by getStatic are the content of THE regular file realpath(<static root>/<name>), strictly inside the root; gzip bytes are those of the regular file <that file>.gz"},
+    {"id": "C20_A3_named", "theorem": "Iora.C20.NamedFile.inside", "kind": "proved",
+     "statement": "the named-file conclusion implies 'a regular file strictly inside the root' for bytes and gzip bytes"},
     {"id": "C20_A3_template", "theorem": "Iora.C20.A3_template", "kind": "proved",
-     "statement": "same for getTemplate and the template root"},
+     "statement": "same for getTemplate and the template root (the file realpath(<template root>/<name>))"},
     {"id": "C20_A3_embedded", "theorem": "Iora.C20.A3_embedded", "kind": "partial",
-     "statement": "embedded mode: registry entry of exactly this path, or (externalised set only) a regular file strictly inside an absolute, '..'-free EXTERNAL_DIR that resolves to a canonical directory"},
-    {"id": "C20_A4", "theorem": "Iora.C20.A4_leaf_swap", "kind": "proved",
-     "statement": "schedule {resolve in fsR, arbitrary directory-preserving change, open in fsO}: bytes returned are inside the root in fsO"},
+     "statement": "embedded mode, one snapshot per system call: registry entry of exactly this path, or (externalised set only) a regular file strictly inside an absolute, '..'-free EXTERNAL_DIR that resolves to a canonical directory"},
+    {"id": "C20_A4", "theorem": "Iora.C20.A4_every_point", "kind": "proved",
+     "statement": "one file-system snapshot per system call (status, realpath, is_regular_file, open, .gz test, .gz open); environment LeafOnly between them: bytes returned are strictly inside the root in the snapshot of the open that read them"},
+    {"id": "C20_A4_admissible", "theorem": "Iora.C20.A4_leaf_swap_admissible", "kind": "proved",
+     "statement": "replacing a non-directory by a non-directory (leaf -> symlink) just before ANY of the five points is LeafOnly (if the request did not exist at resolution time: only at the resolved leaf / its .gz sibling)"},
     {"id": "C20_A4_swap", "theorem": "Iora.C20.A4_swap_is_dirs_preserving", "kind": "proved",
-     "statement": "replacing a non-directory by anything (the leaf -> symlink swap) is directory-preserving"},
+     "statement": "replacing a non-directory by anything is directory-preserving"},
+    {"id": "C20_A4_residual", "theorem": "Iora.C20.A4_residual_intermediate_link", "kind": "proved",
+     "statement": "witness of what A4 does NOT cover: a NEW intermediate symlink appearing after weakly_canonical of a non-existing path makes the lookup return an outside file (directory-preserving change, not confined to the leaf)"},
     {"id": "C20_A5", "theorem": "Iora.C20.A5_history", "kind": "proved",
-     "statement": "from any fromDirectory result, for EVERY history of lookups/reloads/environment changes: all bytes ever returned (fresh or cached) were inside the root at the open of some lookup"},
+     "statement": "from any fromDirectory result, for EVERY history of lookups (one snapshot per system call, LeafOnly)/reloads/environment changes: all bytes ever returned (fresh or cached) were strictly inside the root at an open of some lookup"},
     {"id": "C20_A5_reval", "theorem": "Iora.C20.A5_revalidated", "kind": "proved",
      "statement": "a cache hit is re-validated: the name currently resolves to a regular file strictly inside the root"},
     {"id": "C20_A5_stale", "theorem": "Iora.C20.A5_cache_can_be_stale", "kind": "proved",
@@ -774,14 +866,19 @@ OBLIGATIONS = [
     {"id": "C20_Gen_contained", "theorem": "Iora.C20.Gen_contained", "kind": "gen-conformance", "statement": "isContained compares the first element of rel with '..' using !="},
     {"id": "C20_Gen_order", "theorem": "Iora.C20.Gen_call_order", "kind": "gen-conformance",
      "statement": "order of security-relevant calls: filter -> weakly_canonical -> isContained -> is_regular_file -> cache -> open"},
+    {"id": "C20_Gen_skel", "theorem": "Iora.C20.Gen_skeleton", "kind": "gen-conformance",
+     "statement": "operands of the checked calls: base/candidate/resolved/gz definitions and argument lists of weakly_canonical/isContained/is_regular_file/buildEntry/readFile"},
     {"id": "C20_Gen_roots", "theorem": "Iora.C20.Gen_roots", "kind": "gen-conformance", "statement": "static / templates / .gz"},
 ]
-LEANCHECK = ["IoraModel.Props.C20", "IoraModel.Lemmas.AssetsRoots", "IoraModel.Lemmas.AssetsHistory", "IoraModel.Lemmas.AssetsWc", "IoraModel.Lemmas.AssetsLookup",
+LEANCHECK = ["IoraModel.Props.C20", "IoraModel.Lemmas.AssetsHistory", "IoraModel.Lemmas.AssetsPhases", "IoraModel.Lemmas.AssetsRoots", "IoraModel.Lemmas.AssetsWc", "IoraModel.Lemmas.AssetsLookup",
              "IoraModel.Lemmas.AssetsFuel", "IoraModel.Lemmas.AssetsWalk", "IoraModel.Lemmas.AssetsPath", "IoraModel.Model.Assets", "IoraModel.Gen.Assets"]
 NOT_PROVED = [
     "agreement of the model functions (kernel path walk, realpath, status, weakly_canonical, lexically_normal, lexically_relative, open(O_NOFOLLOW)) with libstdc++/glibc/Linux — partial by nature, checked by lockstep only",
+    "SNAPSHOT ASSUMPTION: each path-taking system call of a lookup has its own file-system snapshot EXCEPT (a) the prefix loop + realpath(prefix) that weakly_canonical runs when the candidate does not exist, and (b) the inside of one realpath / one open — these are assumed atomic",
+    "environment changes that are not LeafOnly while a lookup runs: a directory replaced, or a NEW intermediate symbolic link appearing between weakly_canonical and the open (Lean witness A4_residual_intermediate_link; reproduced on the real code by the `sched` residual cases) — the code's documented residual ('intermediate-component swaps would need openat() chains'); outside the property's quantifier (only the LEAF is replaced while the lookup runs)",
     "A3_embedded for a relative / non-existent / trailing-slash EXTERNAL_DIR or one spelled with '..' (lockstep only)",
-    "swaps of an INTERMEDIATE directory between resolution and open (the code's documented residual; A4 assumes directories stay directories)",
+    "the cache's double-checked locking under concurrent getStatic/reload from several threads is not modelled (histories are sequential); the swap storm runs one looker-up thread",
+    "lifetime of the std::string_view returned by getTemplate: it dangles after reload() (ASan: heap-use-after-free when held across reload; the header documents the contract H-5/N-5 'copy before any reload') — a memory-lifetime matter outside C20's statement; the harness copies immediately",
 ]
 
 
@@ -789,7 +886,7 @@ def strip_oracles(lines):
     return [split_oracle(l)[0] for l in lines]
 
 
-STATEFUL = ("tree", "put", "rm", "newfs", "newemb", "reload", "swapstatic", "swaptemplate", "storm")
+STATEFUL = ("tree", "put", "rm", "newfs", "newemb", "reload", "swapstatic", "swaptemplate", "storm", "sched")
 
 
 def run_impl_only(ctx, hb, env, W, sops):
@@ -805,6 +902,7 @@ def shrink(ctx, hb, env, W, c, fail_idx, cls):
     def fails(sub):
         cc = dict(c)
         cc["sops"] = sub
+        cc["residual"] = [i for i, s in enumerate(sub) if any(s is sops[j] for j in c.get("residual", []) if j < len(sops))]
         return any(m.split(":")[0] == cls for _, m in monitor_case(cc, None, run_impl_only(ctx, hb, env, W, sub), W))
     try:
         cand = [s for i, s in enumerate(sops[:fail_idx]) if s[0] in STATEFUL] + [sops[fail_idx]]
@@ -849,12 +947,17 @@ def evaluate(ctx, hb, env, W, cases, acc):
             if sop[0] in ("norm", "tree", "put", "rm", "reload"):
                 k = sop[0]
             else:
-                k = sop[0] + ":" + (l.split()[0] if l else "") + ((" " + l.split()[-1]) if "swapped=" in l else "")
+                if sop[0] == "sched":
+                    k = "sched:%s@%s:%s %s" % (sop[1], sop[3], (l.split()[0] if l else ""), l.split()[-1])
+                else:
+                    k = sop[0] + ":" + (l.split()[0] if l else "") + ((" " + l.split()[-1]) if "swapped=" in l else "")
             acc["opstat"][k] = acc["opstat"].get(k, 0) + 1
         ctx.count_case("\n".join(c["ops"]), nontrivial=any(l.startswith("found") or l.startswith("some") for l in core))
         if len(ctx.cov["samples"]) < 6 and ctx.rng.chance(1, 8):
             ctx.sample({"cat": c["cat"], "ops": [describe(o) for o in c["sops"][1:7]], "impl": [l[:160] for l in impl[1:7]]})
         fails = monitor_case(c, None, impl, W)
+        acc["residual_ops"] = acc.get("residual_ops", 0) + len(c.get("residual", []))
+        acc["residual_leaks"] = acc.get("residual_leaks", 0) + c.pop("_residual_leaks", 0)
         mism = [(i, a, b) for i, (a, b) in enumerate(zip(core, model)) if a != b] if model is not None else []
         if fails:
             report(ctx, hb, env, W, c, impl, model, fails)
@@ -894,7 +997,7 @@ def replay(ctx):
     if not hb or not obj.get("sops"):
         print("replay: nothing to run (kind=%s)" % obj.get("kind"))
         return 1 if ctx.violations else 0
-    c = {"cat": obj.get("category", "replay"), "sops": [sop_from_json(x) for x in obj["sops"]]}
+    c = {"cat": obj.get("category", "replay"), "sops": [sop_from_json(x) for x in obj["sops"]], "residual": obj.get("residual", [])}
     c["ops"] = render_case(c["sops"], W)
     try:
         (c, impl, model), = ctx.lockstep("assets", hb, [c], impl_env=env)
@@ -920,7 +1023,7 @@ def run(ctx: Ctx):
     hb, env, W, stats = setup(ctx, quick)
     acc = {"dist": {}, "opstat": {}, "mismatch": 0}
     if hb:
-        n_fs, n_emb, n_pure, n_storm, storm_iters = (260, 60, 30, 3, 4000) if quick else (3200, 720, 300, 24, 40000)
+        n_fs, n_emb, n_pure, n_storm, storm_iters = (220, 50, 30, 3, 3000) if quick else (2600, 600, 300, 20, 40000)
         r1, r2, r3, r4 = rng.fork("fs"), rng.fork("emb"), rng.fork("pure"), rng.fork("storm")
         plan = [("corpus", None)] + [("fs", i) for i in range(n_fs)] + [("emb", i) for i in range(n_emb)] + \
                [("pure", i) for i in range(n_pure)] + [("storm", i) for i in range(n_storm)]
@@ -947,6 +1050,8 @@ def run(ctx: Ctx):
                 flush()
         flush()
         ctx.extra["op_outcomes"] = dict(sorted(acc["opstat"].items()))
+        ctx.extra["residual_intermediate_link"] = {"scheduled": acc.get("residual_ops", 0), "outside_bytes_returned_by_real_code_and_model": acc.get("residual_leaks", 0),
+                                                   "note": "outside the property's quantifier (only the LEAF is replaced while the lookup runs); the code documents it; Lean witness A4_residual_intermediate_link"}
         if os.path.exists(stats):
             ctx.extra["storm_stats"] = open(stats).read().splitlines()[:40]
     ctx.extra["input_distribution"] = acc["dist"]
